@@ -218,7 +218,9 @@ func (f *Frame) execReturn(st *State, x *ast.ReturnStmt) {
 	default:
 		for i, r := range x.Results {
 			v := f.eval(st, r)
-			results = append(results, f.name("ret", f.convertForAssign(st, v, sig.Results().At(i).Type())))
+			rv := f.name("ret", f.convertForAssign(st, v, sig.Results().At(i).Type()))
+			rv.Refs = v.Refs
+			results = append(results, rv)
 		}
 	}
 	// named results get the returned values (visible to deferred code and to specs)
@@ -311,7 +313,9 @@ func (f *Frame) assign(st *State, lhs ast.Expr, v Val) {
 		if _, isVar := obj.(*types.Var); !isVar {
 			f.unsupported(lhs, "assignment to non-variable")
 		}
+		refs := v.Refs
 		v = f.convertForAssign(st, v, obj.Type())
+		v.Refs = refs
 		if _, known := st.env[obj]; !known {
 			if f.info.Defs[x] == nil {
 				// assignment to a package-level variable or captured variable
@@ -329,7 +333,12 @@ func (f *Frame) assign(st *State, lhs ast.Expr, v Val) {
 		base := f.eval(st, x.X)
 		v = f.convertForAssign(st, v, sel.Type())
 		nb := f.updatePath(st, base, sel.Index(), v, x)
+		nb.Refs = base.Refs
 		f.assign(st, x.X, nb)
+		if _, isPtr := base.Ty.Underlying().(*types.Pointer); isPtr && len(base.Refs) > 0 {
+			// the pointer aliases other locations: apply the write there too
+			f.propagateRefs(st, base.Refs, f.deref(st, nb, x))
+		}
 	case *ast.IndexExpr:
 		base := f.eval(st, x.X)
 		if m, ok := base.Ty.Underlying().(*types.Map); ok {
@@ -349,8 +358,11 @@ func (f *Frame) assign(st *State, lhs ast.Expr, v Val) {
 			f.unsupported(lhs, "assignment through *big.Int")
 		}
 		so := f.c.sorts.SortOf(p.Ty)
-		np := Val{T: fmt.Sprintf("(mk_%s (%s.nil %s) %s)", so, so, p.T, v.T), Ty: p.Ty}
+		np := Val{T: fmt.Sprintf("(mk_%s (%s.nil %s) %s)", so, so, p.T, v.T), Ty: p.Ty, Refs: p.Refs}
 		f.assign(st, x.X, np)
+		if len(p.Refs) > 0 {
+			f.propagateRefs(st, p.Refs, v)
+		}
 	case *ast.CallExpr, *ast.CompositeLit:
 		// e.g. f().x = v : write to a temporary, no effect on tracked state
 		f.c.note("write to a temporary value dropped")
